@@ -78,6 +78,9 @@ MAP = [
  ("a chars-mode layer lets cells flagged invisible contribute", "C13", "alpha layer in chars mode whose invisible cell (attribute flag INVISIBLE) stores glyph 0xDC: Buffer::get_char shows 0xDC instead of nothing (law L8)"),
  ("cursor positioning in a file buffer is unbounded", "C03", "13-byte .ans file 'ESC[2147483647;1Hab': the cursor row of a non-terminal buffer is not limited, the next character makes the layer allocate 2^31 rows (51 GB requested); CUD/CNL/CUP/VPA/VPR/HVP alike (found when C02's text-number class deferred an allocation failure to C03)"),
  ("rendering a layer image (sixel) that starts left of or above", "C07", "document with an image layer (role Image) at offset (-3,1): to_bytes(\"icy\") panics in Buffer::render_to_rgba (preview) with 'attempt to multiply with overflow'; a picture wider than the remaining row was copied into the next rows"),
+ ("swap_char on a layer with a locked alpha channel erases", "C08", "update_layer_properties(0, alpha + alpha-locked); swap_char((3,3),(1,8)) where (1,8) is an invisible cell; undo - the cell at (3,3) is gone (found by the thorough tier at seed 2)"),
+ ("IGS polymarker tables are walked one value per point", "C20", "G#T1,5,: G#P3,: (marker type diagonal cross, then a polymarker): index out of bounds in draw_poly_maker"),
+ ("IGS line type 7 (user defined) indexes past the line style table", "C20", "G#T2,7,: G#L0,,,: (line type user defined, then a line): LINE_STYLE[6] out of bounds"),
  ("RIP button drawing visits every pixel of a button far larger", "C20", "!|R|1BZD00XMFZRLZ5|1U: about ten million put_pixel calls for one button"),
 ]
 
